@@ -12,6 +12,10 @@ use std::time::Duration;
 use crate::rng::{fnv1a, Rng, FNV_INIT};
 
 /// Why the simulator itself ended a run (unwinds through the engine).
+/// See Abort::NoProgress. Healthy searches: a few hundred at most (a node whose children are
+/// all answered from the table).
+pub const MAX_NO_PROGRESS_RUN: u64 = 400_000;
+
 #[derive(Debug, Clone, PartialEq, Eq)]
 pub enum Abort {
     /// More than the allowed number of reads after end of input.
@@ -27,6 +31,12 @@ pub enum Abort {
     /// A clock-limited search entered this many nodes without reading the clock
     /// (payload: node index at which the gap began).
     PollGap(u64),
+    /// A search without a clock entered this many main-search nodes in a row without any
+    /// sign of progress: no quiescence node, no attempt to store a result in the
+    /// transposition table, no output line (payload: node index at which the run began).
+    /// Every subtree of a healthy search ends in leaves (quiescence) and in completed nodes
+    /// (stores); a loop that re-enters nodes answered from the table does neither.
+    NoProgress(u64),
 }
 
 #[derive(Debug, Clone, PartialEq, Eq)]
@@ -107,6 +117,9 @@ pub struct SearchRecord {
     /// node count at the most recent clock read of this search
     pub nodes_at_last_read: u64,
     pub max_poll_gap_seen: u64,
+    /// node count at the most recent sign of progress (see Abort::NoProgress)
+    pub progress_mark: u64,
+    pub max_no_progress_run: u64,
     /// this record continues a call whose deadline had already passed (timer re-armed
     /// inside the same call): overshoot carried over from the earlier record
     pub inherited_overshoot: Option<u64>,
@@ -420,6 +433,9 @@ impl Sim for World {
             let line: String = st.out_partial[..i].to_string();
             st.out_partial.drain(..=i);
             st.ev(&format!("out {}", line));
+            if let Some(s) = st.searches.last_mut() {
+                s.progress_mark = s.nodes;
+            }
             if line.starts_with("info depth") {
                 if let Some(s) = st.searches.last_mut() {
                     let m = (s.reads, s.nodes, s.tt_hits, s.tt_hits_deeper);
@@ -471,6 +487,14 @@ impl Sim for World {
             s.nodes += 1;
             if kind == seam::NODE_QUIESCENCE {
                 s.qnodes += 1;
+                s.progress_mark = s.nodes;
+            }
+            let run = s.nodes - s.progress_mark;
+            if run > s.max_no_progress_run {
+                s.max_no_progress_run = run;
+            }
+            if run > MAX_NO_PROGRESS_RUN && s.limit.is_none() {
+                abort = Some(Abort::NoProgress(s.progress_mark));
             }
             if let Some(carry) = s.inherited_overshoot {
                 s.nodes_after_deadline = carry + s.nodes;
@@ -554,6 +578,8 @@ impl Sim for World {
             info_marks: vec![],
             nodes_at_last_read: 0,
             max_poll_gap_seen: 0,
+            progress_mark: 0,
+            max_no_progress_run: 0,
             inherited_overshoot: inherited,
             pre_nodes,
             call_id: call_id_now,
@@ -563,6 +589,12 @@ impl Sim for World {
     fn buggify(&mut self, site: u8) -> bool {
         let mut st = self.st.borrow_mut();
         let i = site as usize;
+        if site == seam::SITE_TT_STORE_DROP {
+            // an attempt to store a result (possibly refused by the fault): progress
+            if let Some(s) = st.searches.last_mut() {
+                s.progress_mark = s.nodes;
+            }
+        }
         st.site_hits[i] += 1;
         let hit = st.site_hits[i];
         let fire = match &st.buggify.explicit {
@@ -603,6 +635,11 @@ impl Sim for World {
                 }
             }
             _ => {
+                if matches!(&ev, Event::TtStore { .. } | Event::TtStoreEffect { .. }) {
+                    if let Some(s) = st.searches.last_mut() {
+                        s.progress_mark = s.nodes;
+                    }
+                }
                 if st.record_tt_traffic && st.tt_traffic.len() < st.tt_traffic_cap {
                     st.tt_traffic.push(ev);
                 }
